@@ -414,6 +414,32 @@ theorem specStep_model (env : Env K E) (p : Bytes) (st : HState K E) (op : Op)
           subst hi
           simpa [specStep, filterInfo, merge, pushFrom] using hk
 
+/-- the Spec of the direct calls accepts the model -/
+theorem specTryFrom_model (env : Env K E) (p : Bytes) (m : Msg) :
+    specTryFrom env p m (tryDirect env p m) = true := by
+  unfold tryDirect
+  cases ht : tryFrom env m with
+  | none => simp [specTryFrom, tryFrom_none env m ht]
+  | some raw =>
+    have hkey := tryFrom_key env m raw ht
+    have hs := signed_record_use env m raw ht
+    simp only [Option.map_some, specTryFrom, hkey, beq_self_eq_true, Bool.true_and,
+      Bool.and_eq_true, List.all_eq_true, handleIncomingInfo_eq]
+    refine ⟨⟨⟨?_, ?_⟩, ?_⟩, ?_⟩
+    · by_cases h : env.peerIdOf raw.publicKey = p <;> simp [h]
+    · intro a ha
+      exact (List.mem_filter.1 ha).2
+    · simp
+    · cases hr : raw.signedPeerRecord with
+      | none =>
+        obtain ⟨h1, h2⟩ := hs.2 hr
+        simp only [Bool.and_eq_true, beq_iff_eq, decide_eq_true_eq]
+        exact ⟨msgRecord_eq_none env _ m h2, h1⟩
+      | some e =>
+        obtain ⟨⟨b, hb, he⟩, ha, hra⟩ := hs.1 e hr
+        simp only [Bool.and_eq_true, beq_iff_eq, decide_eq_true_eq]
+        exact ⟨msgRecord_eq_some env _ m b e hb he ha, hra.symm⟩
+
 /-- **the Spec accepts the model on every trace**: so "implementation output = model output on
 this input" implies "the Spec holds on the implementation's output". -/
 theorem spec_accepts_model (env : Env K E) (p : Bytes) (ops : List Op) :
@@ -520,6 +546,7 @@ end examples
 #print axioms C46.filter_exact
 #print axioms C46.specStep_sound
 #print axioms C46.specStep_model
+#print axioms C46.specTryFrom_model
 #print axioms C46.spec_accepts_model
 #print axioms C46.specTrace_sound
 #print axioms C46.recordFor_some_iff
